@@ -139,4 +139,4 @@ def run(ch, build):
 
 def replay(ch, build, path):
     from . import c10
-    return c10.replay(ch, build, path)
+    return c10.replay(ch, build, path, hooks=(Hook(),))
